@@ -270,10 +270,16 @@ def _contradicts(atom, truth, known):
             return True
         # x == a  vs  x == b with a != b
         if truth and kt and isinstance(atom, ast.Compare) and isinstance(k, ast.Compare):
-            if isinstance(atom.ops[0], ast.Eq) and isinstance(k.ops[0], ast.Eq) and ast.unparse(atom.left) == ast.unparse(k.left):
-                a, b = _lin(atom.comparators[0]), _lin(k.comparators[0])
-                if a and b and a[0] == b[0] and a[1] != b[1]:
-                    return True
+            if isinstance(atom.ops[0], ast.Eq) and isinstance(k.ops[0], ast.Eq):
+                # the two equalities share one operand (on either side): the other operands must then be equal
+                s1 = [atom.left, atom.comparators[0]]
+                s2 = [k.left, k.comparators[0]]
+                for i1 in (0, 1):
+                    for i2 in (0, 1):
+                        if ast.unparse(s1[i1]) == ast.unparse(s2[i2]):
+                            a, b = _lin(s1[1 - i1]), _lin(s2[1 - i2])
+                            if a and b and a[0] == b[0] and a[1] != b[1]:
+                                return True
     return False
 
 
